@@ -4,6 +4,7 @@
 package c09x
 
 import (
+	"fmt"
 	"go/ast"
 	"go/token"
 	"os"
@@ -99,6 +100,171 @@ func Facts(f *hc.Facts) {
 			f.Missing(v[0], v[1]+" not defined in TestServerRNG.GA")
 		}
 	}
+	dhFacts(f)
+}
+
+// dhFacts: crypto.CheckDHParams as the ordered list of its InRange tests (which value against
+// which bounds — interpreted by the model), the definitions of the bounds and of InRange, and
+// crypto.CheckGP's switch table.
+func dhFacts(f *hc.Facts) {
+	fn := f.FuncDecl("crypto", "CheckDHParams")
+	var rows []string
+	bad := fn == nil || fn.Body == nil
+	if !bad {
+		for _, st := range fn.Body.List {
+			is, ok := st.(*ast.IfStmt)
+			if !ok {
+				continue
+			}
+			// every `if` of the function must be `if !InRange(x, lo, hi) { return errors.New(..) }`
+			un, ok := is.Cond.(*ast.UnaryExpr)
+			var call *ast.CallExpr
+			if ok && un.Op == token.NOT {
+				call, _ = un.X.(*ast.CallExpr)
+			}
+			if call == nil || oneLine(f.Src(call.Fun)) != "InRange" || len(call.Args) != 3 || is.Init != nil || is.Else != nil {
+				bad = true
+				break
+			}
+			if _, ok := errorReturn1(is.Body.List); !ok {
+				bad = true
+				break
+			}
+			rows = append(rows, fmt.Sprintf("(%q, %q, %q)", oneLine(f.Src(call.Args[0])), oneLine(f.Src(call.Args[1])), oneLine(f.Src(call.Args[2]))))
+		}
+		// … and the function ends with `return nil`
+		if n := len(fn.Body.List); n == 0 {
+			bad = true
+		} else if rs, ok := fn.Body.List[n-1].(*ast.ReturnStmt); !ok || len(rs.Results) != 1 || oneLine(f.Src(rs.Results[0])) != "nil" {
+			bad = true
+		}
+	}
+	if bad || len(rows) == 0 {
+		f.Missing("dhParamChecks", "crypto.CheckDHParams is not a sequence of `if !InRange(x, lo, hi) { return err }`")
+	} else {
+		f.Raw("/-- crypto.CheckDHParams: its `if !InRange(value, lo, hi) { return err }` tests, in order. -/")
+		f.Raw("def dhParamChecks : List (String × String × String) := [" + strings.Join(rows, ", ") + "]")
+	}
+	for _, v := range []string{"one", "dhPrimeMinusOne", "safetyRangeMin", "safetyRangeMax"} {
+		if rhs := assignedTo(fn, v); rhs != nil {
+			f.Str("dhBound_"+v, oneLine(f.Src(rhs)), "crypto.CheckDHParams: "+v)
+		} else {
+			f.Missing("dhBound_"+v, v+" not defined in crypto.CheckDHParams")
+		}
+	}
+	if ir := f.FuncDecl("crypto", "InRange"); ir != nil && ir.Body != nil && len(ir.Body.List) == 1 {
+		f.Str("inRangeBody", oneLine(f.Src(ir.Body.List[0])), "crypto.InRange(x, min, max)")
+	} else {
+		f.Missing("inRangeBody", "crypto.InRange not found")
+	}
+	// CheckGP: switch g { case N: result = checkSubgroup(p, divider, residues…) | result = true }
+	gp := f.FuncDecl("crypto", "CheckGP")
+	var gpRows []string
+	gpBad := gp == nil || gp.Body == nil
+	if !gpBad {
+		ast.Inspect(gp.Body, func(n ast.Node) bool {
+			sw, ok := n.(*ast.SwitchStmt)
+			if !ok {
+				return true
+			}
+			if oneLine(f.Src(sw.Tag)) != "g" {
+				gpBad = true
+			}
+			for _, c := range sw.Body.List {
+				cc := c.(*ast.CaseClause)
+				if len(cc.List) == 0 { // default: must be an error return
+					if len(cc.Body) != 1 {
+						gpBad = true
+					} else if _, ok := cc.Body[0].(*ast.ReturnStmt); !ok {
+						gpBad = true
+					}
+					continue
+				}
+				gv, ok := intLit(cc.List[0])
+				if !ok || len(cc.List) != 1 || len(cc.Body) != 1 {
+					gpBad = true
+					continue
+				}
+				as, ok := cc.Body[0].(*ast.AssignStmt)
+				if !ok || len(as.Lhs) != 1 || oneLine(f.Src(as.Lhs[0])) != "result" || len(as.Rhs) != 1 {
+					gpBad = true
+					continue
+				}
+				switch rhs := as.Rhs[0].(type) {
+				case *ast.Ident:
+					if rhs.Name != "true" {
+						gpBad = true
+					}
+					gpRows = append(gpRows, fmt.Sprintf("(%d, 1, [0])", gv)) // p %% 1 = 0: no condition
+				case *ast.CallExpr:
+					if oneLine(f.Src(rhs.Fun)) != "checkSubgroup" || len(rhs.Args) < 3 || oneLine(f.Src(rhs.Args[0])) != "p" {
+						gpBad = true
+						continue
+					}
+					div, ok := intLit(rhs.Args[1])
+					var res []string
+					for _, a := range rhs.Args[2:] {
+						v, ok2 := intLit(a)
+						ok = ok && ok2
+						res = append(res, strconv.Itoa(v))
+					}
+					if !ok {
+						gpBad = true
+					}
+					gpRows = append(gpRows, fmt.Sprintf("(%d, %d, [%s])", gv, div, strings.Join(res, ", ")))
+				default:
+					gpBad = true
+				}
+			}
+			return false
+		})
+	}
+	if gpBad || len(gpRows) == 0 {
+		f.Missing("gpTable", "crypto.CheckGP switch table not recognised")
+	} else {
+		f.Raw("/-- crypto.CheckGP: (g, divider, accepted residues of p mod divider); any other g is refused. -/")
+		f.Raw("def gpTable : List (Nat × Nat × List Nat) := [" + strings.Join(gpRows, ", ") + "]")
+	}
+	cs := f.FuncSrc("crypto", "checkSubgroup")
+	f.Bool("checkSubgroupIsRem", strings.Contains(oneLine(cs), "rem := new(big.Int).Rem(p, big.NewInt(divider)).Int64()") && strings.Contains(oneLine(cs), "if rem == e { return true }"), "crypto.checkSubgroup: rem = p rem divider; true iff rem is one of the expected values")
+	// CheckDH: bit length, then CheckGP, then checkPrime (p, then (p-1)/2)
+	dh := f.FuncDecl("crypto", "CheckDH")
+	order := ""
+	if dh != nil && dh.Body != nil {
+		var parts []string
+		for _, st := range dh.Body.List {
+			switch x := st.(type) {
+			case *ast.IfStmt:
+				if x.Init != nil {
+					parts = append(parts, oneLine(f.Src(x.Init))+"; "+oneLine(f.Src(x.Cond)))
+				} else {
+					parts = append(parts, oneLine(f.Src(x.Cond)))
+				}
+			case *ast.ReturnStmt:
+				parts = append(parts, "return "+oneLine(f.Src(x.Results[0])))
+			}
+		}
+		order = strings.Join(parts, " | ")
+	}
+	f.Str("checkDHOrder", order, "crypto.CheckDH: its tests in order")
+	cp := oneLine(f.FuncSrc("crypto", "checkPrime"))
+	f.Bool("checkPrimeTestsBoth", strings.Contains(cp, "if !Prime(p) {") && strings.Contains(cp, "sub := big.NewInt(0).Sub(p, big.NewInt(1))") &&
+		strings.Contains(cp, "pr := sub.Quo(sub, big.NewInt(2))") && strings.Contains(cp, "if !Prime(pr) {"), "crypto.checkPrime tests Prime(p) and Prime((p-1)/2)")
+}
+
+// errorReturn1: body is a single `return <non-nil error>`.
+func errorReturn1(body []ast.Stmt) (string, bool) {
+	if len(body) != 1 {
+		return "", false
+	}
+	rs, ok := body[0].(*ast.ReturnStmt)
+	if !ok || len(rs.Results) != 1 {
+		return "", false
+	}
+	if id, ok := rs.Results[0].(*ast.Ident); ok && id.Name == "nil" {
+		return "", false
+	}
+	return "err", true
 }
 
 // RefreshC09 rewrites TdModel/Gen/C09.lean next to the `-out` file of the running `facts`
